@@ -94,7 +94,7 @@ func c02ProgOracle(e *progEnv, res *progStepResult) (sig, what string, descend b
 func replayC02(raw json.RawMessage) (string, error) {
 	var pp progPath
 	if json.Unmarshal(raw, &pp) == nil && len(pp.Syms) > 0 {
-		return progReplay(pp, progSeeds(true), progAlphabet(true), false, c02ProgOracle)
+		return progReplay(pp, progSeeds(true), progAlphabetInt(), false, c02ProgOracle)
 	}
 	var c cpuCase
 	if err := json.Unmarshal(raw, &c); err != nil {
@@ -124,7 +124,7 @@ func runC02(r *report.Run) {
 	if o.thorough {
 		depth = 5
 	}
-	syms, seeds := progAlphabet(true), progSeeds(true)
+	syms, seeds := progAlphabetInt(), progSeeds(true)
 	st, tr := progSearch(depth, seeds, syms, false, 0x51ED270B, progVisitOf(r, 0x51ED270B, c02ProgOracle))
 	r.Set("program_search", map[string]interface{}{"depth": depth, "alphabet": len(syms), "seed_states": len(seeds), "distinct_states": st, "steps_executed": tr})
 	r.Set("single_step_cases_by_sweep", counts)
